@@ -452,6 +452,12 @@ class SymEval:
             return t
         if a == ("c", False) and b == ("c", True):
             return mk_not(t)
+        # x if x < y else y   and its spellings  ==  min(x, y) ;  the mirror images == max(x, y)
+        tt, neg = (t[1], True) if t[0] == "not" else (t, False)
+        if tt[0] == "cmp" and tt[1] == "<" and {tt[2], tt[3]} == {a, b} and a != b:
+            lo_first = (tt[2] == a)          # condition reads  a < b
+            is_min = lo_first != neg         # (a if a < b else b) -> min ; (a if not a < b else b) -> max
+            return ("call", ("glob", "min" if is_min else "max"), tuple(sorted((a, b), key=skey)), ())
         return ("ife", t, a, b)
 
     def e_List(self, n):
@@ -491,6 +497,18 @@ class SymEval:
         # evaluate the element with generator targets bound to fresh iteration vars
         saved = dict(self.env)
         gens = []
+        # a comprehension over a constant range with no filter is a list display
+        if len(n.generators) == 1 and not n.generators[0].ifs and isinstance(n, ast.ListComp) and isinstance(n.generators[0].target, ast.Name):
+            it = self.expr(n.generators[0].iter)
+            if it[0] == "call" and it[1] == ("glob", "range") and all(is_const(a) and isinstance(a[1], int) for a in it[2]) and not it[3]:
+                rng = range(*[a[1] for a in it[2]])
+                if len(rng) <= 128:
+                    items = []
+                    for v in rng:
+                        self.env[n.generators[0].target.id] = ("c", v)
+                        items.append(self.expr(n.elt))
+                    self.env = saved
+                    return ("list", tuple(items))
         for g in n.generators:
             it = self.expr(g.iter)
             self._bind_target(g.target, ("iter", it))
@@ -647,7 +665,10 @@ class SymEval:
         t = st.target
         if isinstance(t, ast.Name):
             cur = self.env.get(t.id, ("glob", t.id))
-            self.env[t.id] = mk_bin(op, cur, v)
+            if op == "+" and cur[0] in ("list", "cat", "pad") and not is_const(v):
+                self.env[t.id] = cat(cur, v)     # list += iterable
+            else:
+                self.env[t.id] = mk_bin(op, cur, v)
             return
         # local list element: data[0] |= x
         if isinstance(t, ast.Subscript) and isinstance(t.value, ast.Name) and t.value.id in self.env \
